@@ -141,8 +141,24 @@ def c19_b(ctx: Ctx):
         a = c.args[0] if c.args else kwarg(c, "path")
         v = common.inline_at(ctx, f, a, c) if a is not None else None
         t = canon(v).replace(" ", "") if v is not None else ""
-        if ("os.pardir" in t or "os.path.dirname(" in t or "'..'" in t) and ".end()]" in t:
-            out.append(ctx.ok(R, f, c, "the project is searched from the parent of the matched job directory"))
+        if ("os.pardir" in t or "'..'" in t) and ".end()]" in t:
+            out.append(ctx.ok(R, f, c, "the project is searched from the parent of the matched job directory (<job dir>/.. exists only if the job directory itself exists)"))
+        elif "os.path.dirname(" in t and ".end()]" in t:
+            # dirname() is textual: the truncated candidate '<...>/<32 hex>' need not exist (a directory '<id>.bak', a sha256-named directory); the join(.., pardir)
+            # spelling gets that test for free from get_project's existence check. With dirname an explicit test of the truncated path must precede.
+            trunc = [n for n in body_nodes(f) if isinstance(n, ast.Call) and common.ext_name(ctx, f, n) in ("os.path.isdir", "os.path.exists", "os.path.lexists") and n.args
+                     and ".end()]" in canon(common.inline_at(ctx, f, n.args[0], n)).replace(" ", "")]
+            guarded = False
+            for tnode in trunc:
+                facts = common.facts_at(ctx, f, c, "n")
+                if any(pol and canon(tnode).replace(" ", "") in x.replace(" ", "") for (x, pol) in facts) or any(pol and canon(common.inline_at(ctx, f, tnode, tnode)).replace(" ", "") in x.replace(" ", "") for (x, pol) in common.expand_facts(ctx, f, facts)):
+                    guarded = True
+            if guarded:
+                out.append(ctx.ok(R, f, c, "the project is searched from dirname(<matched job directory>), after the truncated path was tested for existence"))
+            else:
+                out.append(ctx.viol(R, f, c, "the project is searched from os.path.dirname(<path cut at the end of the id match>), a purely textual parent: when the last id-like run of hex digits is only "
+                                    "the prefix of a longer component ('<id>.bak', a sha256-named directory) the truncated directory does not exist, yet a Job with that made-up id is returned "
+                                    "instead of LookupError (os.path.join(<dir>, os.pardir) only exists if <dir> does)", construct=GJ + "|parent-of-existing"))
         elif ".end()]" in t:
             out.append(ctx.viol(R, f, c, f"the project is searched from {canon(a)}, the job directory itself: a project nested inside the job directory is found instead of the project whose workspace holds the job"))
         else:
@@ -208,19 +224,49 @@ def c19_c(ctx: Ctx):
     out = []
     # the upward walk starts from an absolute path: os.path.dirname() of a relative path ends at '' (the current directory), not at the file system root
     lf = ctx.fn(LOC)
-    walks = []
-    for w in [n for n in body_nodes(lf) if isinstance(n, ast.While)]:
-        for (cmpn, b) in common.pfind("os.path.dirname(V) == V", w) + [(x, {"V": x.comparators[0]}) for x in ast.walk(w) if isinstance(x, ast.Compare) and len(x.ops) == 1
-                                                                      and isinstance(x.left, ast.NamedExpr) and common.pmatch("os.path.dirname(V)", x.left.value) is not None
-                                                                      and canon(common.pmatch("os.path.dirname(V)", x.left.value)["V"]) == canon(x.comparators[0])]:
-            if isinstance(b["V"], ast.Name):
-                walks.append((w, b["V"].id))
+
+    def _while_walks(g):
+        res = []
+        for w in [n for n in body_nodes(g) if isinstance(n, ast.While)]:
+            for (cmpn, b) in common.pfind("os.path.dirname(V) == V", w) + [(x, {"V": x.comparators[0]}) for x in ast.walk(w) if isinstance(x, ast.Compare) and len(x.ops) == 1
+                                                                          and isinstance(x.left, ast.NamedExpr) and common.pmatch("os.path.dirname(V)", x.left.value) is not None
+                                                                          and canon(common.pmatch("os.path.dirname(V)", x.left.value)["V"]) == canon(x.comparators[0])]:
+                if isinstance(b["V"], ast.Name):
+                    res.append((w, b["V"].id))
+        return res
+
+    def _outer_defs(g, w, v):
+        first = w.body[0] if w.body else w
+        return [d for d in common.reaching_defs(ctx, g, v, first) if not (isinstance(d, ast.AST) and any(d is x for x in ast.walk(w)))]
+
+    # sites: (loop statement in _locate_config_dir, variable that holds the directory, start expressions, description)
+    sites = []
+    for w, v in _while_walks(lf):
+        sites.append((w, v, _outer_defs(lf, w, v), "while"))
+    # a walk factored into a helper (generator) whose loop variable starts as a parameter: the start is the argument at the call
+    for lp in [n for n in body_nodes(lf) if isinstance(n, ast.For) and isinstance(n.iter, ast.Call)]:
+        for tq in common.targets_of(ctx, lf, lp.iter):
+            g = ctx.prog.funcs.get(tq)
+            if g is None or g.module.is_dep:
+                continue
+            for w, v in _while_walks(g):
+                ds = _outer_defs(g, w, v)
+                if ds and all(isinstance(d, str) or (isinstance(d, ast.arg)) or (isinstance(d, ast.Name) and d.id in g.params) for d in ds) or (not ds and v in g.params):
+                    pname = v
+                    idx = g.params.index(pname) if pname in g.params else None
+                    arg = None
+                    if idx is not None and idx < len(lp.iter.args):
+                        arg = lp.iter.args[idx]
+                    else:
+                        arg = kwarg(lp.iter, pname)
+                    tv = lp.target.id if isinstance(lp.target, ast.Name) else v
+                    sites.append((lp, tv, [arg] if arg is not None else [], f"for over {g.name}()"))
+    walks = sites
     if not walks:
         out.append(ctx.inc(R, lf, lf.node, "no upward walk (dirname(p) == p termination) found in _locate_config_dir", construct=LOC + "|absolute-start"))
-    for w, v in walks:
-        first = w.body[0] if w.body else w
-        defs = [d for d in common.reaching_defs(ctx, lf, v, first) if not (isinstance(d, ast.AST) and any(d is x for x in ast.walk(w)))]
-        k = f"{LOC}|absolute-start|L{[x for x in body_nodes(lf) if isinstance(x, ast.While)].index(w)}"
+    all_loops = [x for x in body_nodes(lf) if isinstance(x, (ast.While, ast.For))]
+    for w, v, defs, how in walks:
+        k = f"{LOC}|absolute-start|L{[x for x in all_loops if any(x is s[0] for s in sites)].index(w)}"
         def _abs(d, depth=0):
             if isinstance(d, ast.Call) and common.ext_name(ctx, lf, d) == "os.path.abspath":
                 return True
@@ -241,7 +287,7 @@ def c19_c(ctx: Ctx):
             out.append(ctx.inc(R, lf, w, f"start of the upward walk over `{v}` not determined", construct=k))
     # the legacy-schema probe runs only after the search for a current configuration has reached the root without success: it must not sit in the loop that
     # looks for the configuration file
-    for w in [n for n in body_nodes(lf) if isinstance(n, ast.While)]:
+    for w in [n for n in body_nodes(lf) if isinstance(n, (ast.While, ast.For))]:
         finds = [r for r in ast.walk(w) if isinstance(r, ast.Return) and r.value is not None and not (isinstance(r.value, ast.Constant) and r.value.value is None)]
         probes = [c for c in ast.walk(w) if isinstance(c, ast.Call) and "signac._config:_raise_if_older_schema" in common.targets_of(ctx, lf, c)]
         if finds and probes:
@@ -304,13 +350,15 @@ def c19_c(ctx: Ctx):
     out += no_memoisation(ctx, R, [LOC, GP, GJ, "signac._config:_get_project_config_fn", "signac._config:_raise_if_older_schema"],
                           "which project owns a path depends on the current file system; a remembered answer goes stale as soon as a nearer project is initialised (init_project would then return the outer project)")
     f = ctx.fn(LOC)
-    loops = [n for n in f.node.body if isinstance(n, ast.While)]
+    loops = [st[0] for st in sites if any(st[0] is n for n in f.node.body)]
+    loops.sort(key=lambda n: n.lineno)
     if loops:
         first = loops[0]
+        var = [st[1] for st in sites if st[0] is first][0]
         rets = [n for n in ast.walk(first) if isinstance(n, ast.Return)]
-        up = [n for n in ast.walk(first) if isinstance(n, ast.Call) and common.ext_name(ctx, f, n) == "os.path.dirname"]
-        tests = [n for n in ast.walk(first) if isinstance(n, ast.If) and "os.path.isfile(_get_project_config_fn(search_path))" in canon(n.test)]
-        if rets and up and tests and canon(rets[0].value) == "search_path":
+        up = [n for n in ast.walk(first) if isinstance(n, ast.Call) and common.ext_name(ctx, f, n) == "os.path.dirname"] or isinstance(first, ast.For)
+        tests = [n for n in ast.walk(first) if isinstance(n, ast.If) and f"os.path.isfile(_get_project_config_fn({var}))" in canon(n.test)]
+        if rets and up and tests and canon(rets[0].value) == var:
             out.append(ctx.ok(R, f, first, "upward search: returns the first directory (starting at the query path) that holds a config file, moving one parent at a time"))
         else:
             out.append(ctx.inc(R, f, first, "upward search loop not recognised"))
@@ -333,6 +381,31 @@ def c19_c(ctx: Ctx):
             out.append(ctx.ok(R, gpf, c, "get_project tests the existence of the query path as given", construct=ke))
         else:
             out.append(ctx.inc(R, gpf, c, f"existence test on {canon(a)[:50]}", construct=ke))
+    # the search=False guard and the walk must look at the same directory: the walk normalises lexically (os.path.abspath collapses '..'),
+    # so the guard's file name must be normalised the same way, not left to the kernel (which resolves 'link/..' physically)
+    kg = GP + "|guard-normalised-like-walk"
+    guards = [c for c in body_nodes(gpf) if isinstance(c, ast.Call) and common.ext_name(ctx, gpf, c) == "os.path.isfile" and c.args
+              and any("search" in x for x, _ in common.facts_at(ctx, gpf, c, "n")) or (isinstance(c, ast.Call) and common.ext_name(ctx, gpf, c) == "os.path.isfile" and c.args and
+              any(isinstance(b, ast.BoolOp) and any(c is y for y in ast.walk(b)) and "search" in canon(b) for b in body_nodes(gpf)))]
+    for c in guards:
+        a = common.inline_at(ctx, gpf, c.args[0], c)
+        texts = [canon(a)]
+        if isinstance(a, ast.Call):
+            for tq in common.targets_of(ctx, gpf, a):
+                h = ctx.prog.funcs.get(tq)
+                if h is not None:
+                    texts += [canon(common.inline_at(ctx, h, r.value, r)) for r in body_nodes(h) if isinstance(r, ast.Return) and r.value is not None]
+            texts += [canon(common.inline_at(ctx, gpf, x, c)) for x in a.args]
+        if any("os.path.abspath(" in t or "os.path.normpath(" in t for t in texts):
+            out.append(ctx.ok(R, gpf, c, "the search=False guard tests a lexically normalised file name, like the upward walk that follows it", construct=kg))
+        elif any("os.path.realpath(" in t for t in texts):
+            pass  # reported by the link-resolution rule
+        elif len(texts) > 1:
+            out.append(ctx.viol(R, gpf, c, f"the search=False guard tests {texts[-1][:60]} without lexical normalisation while _locate_config_dir walks up from os.path.abspath(path): for a query such as "
+                                "'plain/link/..' (link -> a directory of another project) the kernel resolves '..' physically, the guard finds that project's config, and the walk then returns an "
+                                "enclosing project of the lexical parent although search=False", construct=kg))
+        else:
+            out.append(ctx.inc(R, gpf, c, "file name tested by the search=False guard not recognised", construct=kg))
     mi = ctx.prog.funcs.get("signac.__main__:main_init")
     if mi is not None:
         gp = [c for c in body_nodes(mi) if isinstance(c, ast.Call) and (GP in common.targets_of(ctx, mi, c) or "signac.project:get_project" in common.targets_of(ctx, mi, c))]
